@@ -49,8 +49,8 @@ impl<'a> CliCase<'a> {
             args.insert(0, p.display().to_string());
         }
         let mut spec = RunSpec::new(args, input);
-        if stdin && self.stall_one_in > 0 && crate::tape::fnv64(&self.data) % self.stall_one_in == 0 {
-            spec.pause = Some((self.data.len() * 6 / 10, std::time::Duration::from_millis(1300)));
+        if stdin && self.stall_one_in > 0 {
+            spec.pause = stall_for(&self.data, self.stall_one_in);
         }
         let out = cli::run(&self.w.cli, &spec);
         self.execs += 1;
@@ -169,4 +169,16 @@ pub fn neutral_extras(t: &mut Tape, w: &Worker, stream: &Stream, n_packets: usiz
         labels.push(format!("opt:checks-toml({} keys)", lines.len() - 1));
     }
     (args, labels)
+}
+
+/// A producer on stdin that stalls for 1.3 s: for one in `one_in` inputs (chosen by the data's hash), either after 60 %
+/// of the bytes or after the first 1..7 bytes (a first delivery shorter than an RDH0).
+pub fn stall_for(data: &[u8], one_in: u64) -> Option<(usize, std::time::Duration)> {
+    let h = crate::tape::fnv64(data);
+    if one_in == 0 || h % one_in != 0 || data.len() < 16 {
+        return None;
+    }
+    let k = h / one_in;
+    let pos = if k % 2 == 0 { data.len() * 6 / 10 } else { 1 + (k / 2 % 7) as usize };
+    Some((pos, std::time::Duration::from_millis(1300)))
 }
